@@ -68,7 +68,21 @@ func SingleBucket(name string, fs afero.Fs, metaFs afero.Fs, opts ...SingleOptio
 		}
 	}
 
+	// The mtime resolution is profiled with a scratch file inside the bucket
+	// itself. Doing it here, rather than during the first request that needs
+	// it, also clears away a scratch file left behind by a process that was
+	// killed while profiling, before it can be listed as an object:
+	if _, err := b.metaStore.getModTimeRes(); err != nil {
+		return nil, err
+	}
+
 	return b, nil
+}
+
+// validKey reports whether name can be an object of this bucket. The scratch
+// file used for profiling the file system lives in the bucket, so it cannot.
+func (db *SingleBucketBackend) validKey(name string) bool {
+	return validObjectName(name) && name != modTimeProbeName
 }
 
 func (db *SingleBucketBackend) ListBuckets() ([]gofakes3.BucketInfo, error) {
@@ -248,7 +262,7 @@ func (db *SingleBucketBackend) ensureMeta(
 }
 
 func (db *SingleBucketBackend) HeadObject(bucketName, objectName string) (*gofakes3.Object, error) {
-	if !validObjectName(objectName) {
+	if !db.validKey(objectName) {
 		return nil, gofakes3.KeyNotFound(objectName)
 	}
 
@@ -284,7 +298,7 @@ func (db *SingleBucketBackend) HeadObject(bucketName, objectName string) (*gofak
 }
 
 func (db *SingleBucketBackend) GetObject(bucketName, objectName string, rangeRequest *gofakes3.ObjectRangeRequest) (obj *gofakes3.Object, err error) {
-	if !validObjectName(objectName) {
+	if !db.validKey(objectName) {
 		return nil, gofakes3.KeyNotFound(objectName)
 	}
 
@@ -351,7 +365,7 @@ func (db *SingleBucketBackend) PutObject(
 	input io.Reader, size int64,
 ) (result gofakes3.PutObjectResult, err error) {
 
-	if !validObjectName(objectName) {
+	if !db.validKey(objectName) {
 		return result, errInvalidObjectName
 	}
 
@@ -490,7 +504,7 @@ func (db *SingleBucketBackend) DeleteObject(bucketName, objectName string) (resu
 }
 
 func (db *SingleBucketBackend) deleteObjectLocked(bucketName, objectName string) error {
-	if !validObjectName(objectName) {
+	if !db.validKey(objectName) {
 		// Such a key cannot have been stored, so there is nothing to delete:
 		return nil
 	}
